@@ -595,7 +595,11 @@ func buildProgram(dir, src string) (string, error) {
 	os.WriteFile(filepath.Join(dir, "go.mod"), []byte("module progb\n\ngo 1.23\n"), 0o644)
 	os.WriteFile(filepath.Join(dir, "main.go"), []byte(src), 0o644)
 	bin := filepath.Join(dir, "prog.out")
-	cmd := exec.Command(bLlgo, "build", "-o", bin, ".")
+	// -O0: LLVM 14's optimiser, with the opaque pointers this sandbox has to force
+	// on, merges getelementptr instructions that differ only in their source
+	// element type (seen in runtime.typehash: the array length read from the
+	// TFlag field's address); such miscompilations are the sandbox's, not llgo's
+	cmd := exec.Command(bLlgo, "build", "-O0", "-o", bin, ".")
 	cmd.Dir = dir
 	cmd.Env = bEnv(bCache)
 	out, err := cmd.CombinedOutput()
